@@ -113,3 +113,419 @@ Proof.
     inversion Hstep; subst s'; clear Hstep. exfalso. unfold done_of in *; cbn in *.
     rewrite mark_parent_done in H1. congruence.
 Qed.
+
+(* ------------------------------------------------------------------------------------- *)
+(* Invariants for all schedules: the token of o.lock, the WaitGroup and the reader records.  *)
+
+Definition live (l : list rrec) : Z := Z.of_nat (length (filter (fun r => negb (r_done r)) l)).
+
+Lemma live_nonneg l : 0 <= live l.
+Proof. unfold live. lia. Qed.
+
+Lemma live_app l r : live (l ++ [r]) = live l + (if r_done r then 0 else 1).
+Proof. unfold live. rewrite filter_app, app_length. cbn. destruct (r_done r); cbn; lia. Qed.
+
+Lemma live_zero_done l : live l = 0 -> forall n r, nth_error l n = Some r -> r_done r = true.
+Proof.
+  unfold live. induction l as [|a l IH]; intros H n r E; [destruct n; discriminate|].
+  cbn in H. destruct (r_done a) eqn:Ea; cbn in H.
+  - destruct n; cbn in E; [inversion E; subst; auto | eapply IH; eauto].
+  - lia.
+Qed.
+
+Lemma live_set_nth_same l n r r' : nth_error l n = Some r -> r_done r' = r_done r ->
+  live (set_nth n r' l) = live l.
+Proof.
+  unfold live. revert n. induction l as [|a l IH]; intros [|n] E Hd; cbn in *; try discriminate.
+  - inversion E; subst. rewrite Hd. destruct (r_done r); reflexivity.
+  - specialize (IH n E Hd). destruct (r_done a); cbn; lia.
+Qed.
+
+Lemma live_set_nth_done l n r r' : nth_error l n = Some r -> r_done r = false -> r_done r' = true ->
+  live (set_nth n r' l) = live l - 1.
+Proof.
+  unfold live. revert n. induction l as [|a l IH]; intros [|n] E H0 H1; cbn [set_nth nth_error filter] in *;
+    try discriminate.
+  - inversion E; subst. rewrite H0, H1. cbn [negb length]. rewrite Nat2Z.inj_succ. lia.
+  - specialize (IH n E H0 H1). destruct (r_done a); cbn [negb length]; rewrite ?Nat2Z.inj_succ; lia.
+Qed.
+
+Lemma live_spawn_all m t0 b l : live (spawn_all m t0 b l) = live l.
+Proof.
+  unfold spawn_all. revert l. induction m as [|[i j] m IH]; intro l; [reflexivity|].
+  cbn [fold_left snd]. rewrite IH. destruct (nth_error l j) as [r|] eqn:E; auto. destruct (r_at r); auto.
+  eapply live_set_nth_same; eauto.
+Qed.
+
+Lemma live_mark_parent c l : live (mark_parent c l) = live l.
+Proof.
+  unfold live, mark_parent. induction l as [|a l IH]; cbn; auto.
+  destruct (r_ctx a =? c); cbn; destruct (r_done a); cbn; lia.
+Qed.
+
+Record oinv2 (s : ostate) : Prop := {
+  o_wg : wg s = live (recs s);
+  o_slot : oslot s = false <-> owner s = NoOwner;
+  o_run : owner s = OwnRun <-> (exists h, runpc s = RunReg h) \/ (exists t, runpc s = RunWait t);
+  o_w : forall t, owner s = OwnW t -> live (recs s) = 0;
+  o_hold : forall t, opcs s t = OWHoldSlot -> owner s = OwnW t /\ resps s t <> Some PSlot;
+  o_resp : forall t, resps s t = Some PSlot -> owner s = OwnW t
+}.
+
+Lemma oinv2_init g : oinv2 (oinit g).
+Proof.
+  constructor; cbn; try discriminate; auto.
+  - tauto.
+  - split; [discriminate | intros [[h H]|[t H]]; discriminate].
+Qed.
+
+(* steps that leave the token, the WaitGroup, the records and Run's pc alone *)
+Lemma oinv2_frame s s' : oinv2 s ->
+  wg s' = wg s -> live (recs s') = live (recs s) -> oslot s' = oslot s -> owner s' = owner s ->
+  runpc s' = runpc s ->
+  (forall t, opcs s' t = OWHoldSlot -> opcs s t = OWHoldSlot /\ resps s' t = resps s t) ->
+  (forall t, resps s' t = Some PSlot -> resps s t = Some PSlot) ->
+  oinv2 s'.
+Proof.
+  intros I E1 E2 E3 E4 E5 H5 H6. constructor.
+  - rewrite E1, E2. apply I.
+  - rewrite E3, E4. apply I.
+  - rewrite E4, E5. apply I.
+  - intros t. rewrite E4, E2. apply I.
+  - intros t Ht. rewrite E4. destruct (H5 t Ht) as [A B]. rewrite B. apply (o_hold s I t A).
+  - intros t Ht. rewrite E4. apply (o_resp s I). auto.
+Qed.
+
+Lemma rcancel_fields s n y :
+  oslot (rcancel s n y) = oslot s /\ owner (rcancel s n y) = owner s /\
+  runpc (rcancel s n y) = runpc s /\ opcs (rcancel s n y) = opcs s /\ resps (rcancel s n y) = resps s.
+Proof.
+  unfold rcancel. destruct (nth_error (recs s) n) as [r|]; auto. destruct (r_done r); auto.
+Qed.
+
+Lemma rcancel_live s n y : wg s = live (recs s) ->
+  wg (rcancel s n y) = live (recs (rcancel s n y)) /\
+  (live (recs s) = 0 -> live (recs (rcancel s n y)) = 0).
+Proof.
+  intro H. unfold rcancel. destruct (nth_error (recs s) n) as [r|] eqn:E; auto.
+  destruct (r_done r) eqn:Ed; auto. cbn.
+  rewrite (live_set_nth_done _ _ r) by auto. split; [lia|].
+  intro Hz. pose proof (live_zero_done _ Hz _ _ E). congruence.
+Qed.
+
+Lemma clear_at_fields s n :
+  wg (clear_at s n) = wg s /\ live (recs (clear_at s n)) = live (recs s) /\
+  oslot (clear_at s n) = oslot s /\ owner (clear_at s n) = owner s /\
+  runpc (clear_at s n) = runpc s /\ opcs (clear_at s n) = opcs s /\ resps (clear_at s n) = resps s.
+Proof.
+  unfold clear_at. destruct (nth_error (recs s) n) as [r|] eqn:E; [|repeat split; reflexivity]. cbn.
+  repeat split; auto. eapply live_set_nth_same; eauto.
+Qed.
+
+Lemma oinv2_rcancel s n y : oinv2 s -> oinv2 (rcancel s n y).
+Proof.
+  intros I. destruct (rcancel_fields s n y) as (E1 & E2 & E3 & E4 & E5).
+  destruct (rcancel_live s n y (o_wg s I)) as [L1 L2].
+  constructor.
+  - exact L1.
+  - rewrite E1, E2. apply I.
+  - rewrite E2, E3. apply I.
+  - intros t. rewrite E2. intro Ho. apply L2. eapply (o_w s I); eauto.
+  - intros t. rewrite E4, E2, E5. apply I.
+  - intros t. rewrite E5, E2. apply I.
+Qed.
+
+Lemma upd_eq {A} (f : Z -> A) x v y : upd f x v y = if Z.eqb y x then v else f y.
+Proof. reflexivity. Qed.
+
+(* finishes the two pointwise side conditions of [oinv2_frame] for steps that only move thread
+   pcs / resp cells around without creating a slot holder or a slot grant *)
+Ltac frame_tac I :=
+  apply (oinv2_frame _ _ I); cbn; try reflexivity;
+  (let x := fresh "x" in
+   intros x; rewrite ?upd_eq;
+   repeat match goal with |- context [Z.eqb ?a ?b] => destruct (Z.eqb_spec a b); subst end;
+   try discriminate; auto).
+
+Lemma run_idle_not_owner s : oinv2 s ->
+  (forall h, runpc s <> RunReg h) -> (forall t, runpc s <> RunWait t) -> owner s <> OwnRun.
+Proof.
+  intros I H1 H2 Ho. apply (o_run s I) in Ho as [[h E]|[t E]]; [eapply H1 | eapply H2]; eauto.
+Qed.
+
+Lemma oinv2_runpc s p : oinv2 s ->
+  (forall h, runpc s <> RunReg h) -> (forall t, runpc s <> RunWait t) ->
+  (forall h, p <> RunReg h) -> (forall t, p <> RunWait t) ->
+  oinv2 (set_run s p).
+Proof.
+  intros I H1 H2 H3 H4. constructor; cbn; try apply I.
+  split.
+  - intro Ho. exfalso. eapply run_idle_not_owner; eauto.
+  - intros [[h E]|[t E]]; exfalso; [eapply H3 | eapply H4]; eauto.
+Qed.
+
+Lemma step_w s e s' t : oinv2 s ->
+  e = OWCall t \/ e = OWSendCh t \/ e = OWClosed t \/ e = OWGot t \/ e = OWUnlock t ->
+  ostep s e = Some s' -> oinv2 s'.
+Proof.
+  intros I [ -> | [ -> | [ -> | [ -> | -> ] ] ] ] H; cbn in H.
+  - destruct (opcs s t) eqn:Ep; try discriminate. inversion H; subst s'. frame_tac I.
+  - destruct (opcs s t) eqn:Ep; try discriminate. destruct (ch s); try discriminate.
+    inversion H; subst s'. frame_tac I.
+  - assert (Hs : oinv2 (shut_lock s t)).
+    { unfold shut_lock. destruct (ch_send (shut s) t) as [c' ok]. destruct ok; frame_tac I. }
+    destruct (opcs s t); try discriminate; destruct (closed s); try discriminate;
+      inversion H; subst s'; exact Hs.
+  - destruct (opcs s t) eqn:Ep; try discriminate. destruct (resps s t) as [[| |]|] eqn:Er; try discriminate.
+    inversion H; subst s'; clear H. pose proof (o_resp s I t Er) as Ho.
+    constructor; cbn; try apply I.
+    + intros x. rewrite !upd_eq. destruct (Z.eqb_spec x t) as [->|]; [split; [auto|discriminate]|apply I].
+    + intros x. rewrite !upd_eq. destruct (Z.eqb_spec x t) as [->|]; [discriminate|apply I].
+  - destruct (opcs s t) eqn:Ep; try discriminate.
+    + (* releases the token of o.lock *)
+      destruct (oslot s) eqn:Es; try discriminate. inversion H; subst s'; clear H.
+      destruct (o_hold s I t Ep) as [Ho Hr].
+      constructor; cbn.
+      * apply (o_wg s I).
+      * tauto.
+      * split; [discriminate|]. intro Hx. apply (o_run s I) in Hx. congruence.
+      * discriminate.
+      * intros x. rewrite upd_eq. destruct (Z.eqb_spec x t); [discriminate|].
+        intro Hx. destruct (o_hold s I x Hx) as [Hox _]. congruence.
+      * intros x Hx. pose proof (o_resp s I x Hx) as Hox. assert (x = t) by congruence. subst. contradiction.
+    + (* shutdownLock.Unlock *)
+      destruct (ch_recv (shut s)) as [[c' [t'|]]|]; try discriminate; inversion H; subst s'; frame_tac I.
+Qed.
+
+Lemma step_r s e s' t : oinv2 s ->
+  (exists c, e = ORCall t c) \/ e = ORSendCh t \/ e = ORClosed t \/ e = ORCtx t \/ e = ORGot t \/ e = ORRelease t ->
+  ostep s e = Some s' -> oinv2 s'.
+Proof.
+  intros I [ [c -> ] | [ -> | [ -> | [ -> | [ -> | -> ] ] ] ] ] H; cbn in H.
+  - destruct (opcs s t) eqn:Ep; try discriminate. inversion H; subst s'. frame_tac I.
+  - destruct (opcs s t) eqn:Ep; try discriminate. destruct (ch s); try discriminate.
+    inversion H; subst s'. frame_tac I.
+  - destruct (opcs s t) eqn:Ep; try discriminate; destruct (closed s); try discriminate;
+      inversion H; subst s'; frame_tac I.
+  - destruct (opcs s t) eqn:Ep; try discriminate. destruct (cdn s c); try discriminate.
+    inversion H; subst s'. frame_tac I.
+  - destruct (opcs s t) eqn:Ep; try discriminate. destruct (resps s t) as [[| |]|] eqn:Er; try discriminate;
+      inversion H; subst s'; frame_tac I.
+  - destruct (opcs s t) eqn:Ep; try discriminate. inversion H; subst s'; clear H.
+    pose proof (oinv2_rcancel s r ByOwn I) as I2. destruct (rcancel_fields s r ByOwn) as (_ & _ & _ & E4 & E5).
+    apply (oinv2_frame _ _ I2); cbn; try reflexivity; intros x; rewrite ?upd_eq, ?E4;
+      destruct (Z.eqb_spec x t); try discriminate; auto.
+Qed.
+
+Lemma step_run s e s' : oinv2 s ->
+  e = RunRecv \/ e = RunSeeClosed \/ e = RunTakeSlot \/ e = RunCtxDone \/ e = RunRegW \/
+  e = RunRegR \/ e = RunGrantW \/ e = RunDeferGo ->
+  ostep s e = Some s' -> oinv2 s'.
+Proof.
+  intros I [ -> | [ -> | [ -> | [ -> | [ -> | [ -> | [ -> | -> ] ] ] ] ] ] ] H; cbn in H.
+  - (* RunRecv *)
+    destruct (runpc s) eqn:Er; try discriminate. destruct (ch s) as [h|] eqn:Ec; try discriminate.
+    inversion H; subst s'; clear H.
+    apply (oinv2_runpc (set_ch s None)); try (cbn; rewrite Er; discriminate); try discriminate.
+    frame_tac I.
+  - (* RunSeeClosed *)
+    destruct (runpc s) eqn:Er; try discriminate. destruct (closed s); try discriminate.
+    inversion H; subst s'; clear H.
+    apply oinv2_runpc; auto; try (rewrite Er; discriminate); discriminate.
+  - (* RunTakeSlot *)
+    destruct (runpc s) eqn:Er; try discriminate. destruct (oslot s) eqn:Es; try discriminate.
+    inversion H; subst s'; clear H.
+    assert (Hno : owner s = NoOwner) by (apply (o_slot s I); auto).
+    constructor; cbn.
+    + apply (o_wg s I).
+    + split; discriminate.
+    + split; eauto.
+    + discriminate.
+    + intros x Hx. destruct (o_hold s I x Hx). congruence.
+    + intros x Hx. pose proof (o_resp s I x Hx). congruence.
+  - (* RunCtxDone *)
+    destruct (runpc s) as [|[t|t c]| | | |] eqn:Er; try discriminate. destruct (cdn s c); try discriminate.
+    inversion H; subst s'; clear H.
+    apply (oinv2_runpc (set_resp s t (Some PErr))); try (cbn; rewrite Er; discriminate); try discriminate.
+    constructor; cbn; try apply I.
+    + intros x Hx. destruct (o_hold s I x Hx) as [A B]. split; auto. rewrite upd_eq.
+      destruct (Z.eqb_spec x t); [discriminate | auto].
+    + intros x. rewrite upd_eq. destruct (Z.eqb_spec x t); [discriminate | apply (o_resp s I)].
+  - (* RunRegW *)
+    destruct (runpc s) as [| |[t|t c]| | |] eqn:Er; try discriminate.
+    inversion H; subst s'; clear H.
+    assert (Ho : owner s = OwnRun) by (apply (o_run s I); left; eauto).
+    constructor; cbn.
+    + rewrite live_spawn_all. apply (o_wg s I).
+    + apply (o_slot s I).
+    + split; eauto.
+    + intros x Hx. congruence.
+    + apply (o_hold s I).
+    + apply (o_resp s I).
+  - (* RunRegR *)
+    destruct (runpc s) as [| |[t|t c]| | |] eqn:Er; try discriminate.
+    inversion H; subst s'; clear H.
+    assert (Ho : owner s = OwnRun) by (apply (o_run s I); left; eauto).
+    constructor; cbn.
+    + rewrite live_app. cbn. rewrite (o_wg s I). reflexivity.
+    + tauto.
+    + split; [discriminate | intros [[? ?]|[? ?]]; discriminate].
+    + discriminate.
+    + intros x Hx. destruct (o_hold s I x Hx). congruence.
+    + intros x. rewrite upd_eq. destruct (Z.eqb_spec x t); [discriminate|].
+      intro Hx. pose proof (o_resp s I x Hx). congruence.
+  - (* RunGrantW *)
+    destruct (runpc s) as [| | |t| |] eqn:Er; try discriminate.
+    destruct (Z.eqb_spec (wg s) 0) as [Hz|]; try discriminate.
+    inversion H; subst s'; clear H.
+    assert (Ho : owner s = OwnRun) by (apply (o_run s I); right; eauto).
+    assert (Hs : oslot s = true).
+    { destruct (oslot s) eqn:E; auto. apply (o_slot s I) in E. congruence. }
+    constructor; cbn.
+    + apply (o_wg s I).
+    + rewrite Hs. split; discriminate.
+    + split; [discriminate | intros [[? ?]|[? ?]]; discriminate].
+    + intros x _. rewrite <- (o_wg s I). exact Hz.
+    + intros x Hx. destruct (o_hold s I x Hx). congruence.
+    + intros x. rewrite upd_eq. destruct (Z.eqb_spec x t) as [->|]; [auto|].
+      intro Hx. pose proof (o_resp s I x Hx). congruence.
+  - (* RunDeferGo *)
+    destruct (runpc s) eqn:Er; try discriminate. inversion H; subst s'; clear H.
+    apply (oinv2_runpc (set_recs s (wg s) (rcx s) (rcs s) (spawn_all (rcs s) (now s) SpShutdown (recs s))));
+      try (cbn; rewrite Er; discriminate); try discriminate.
+    apply (oinv2_frame _ _ I); cbn; auto. apply live_spawn_all.
+Qed.
+
+Lemma step_env s e s' : oinv2 s ->
+  (exists n, e = OGrace n) \/ (exists c, e = OCancel c) \/ e = OShutdown \/ (exists d, e = OAdvance d) ->
+  ostep s e = Some s' -> oinv2 s'.
+Proof.
+  intros I [ [n -> ] | [ [c -> ] | [ -> | [d -> ] ] ] ] H; cbn in H.
+  - destruct (nth_error (recs s) n) as [r|] eqn:En; try discriminate.
+    destruct (r_at r); try discriminate.
+    destruct (closed s || r_done r || (z + grace s <=? now s)); try discriminate.
+    inversion H; subst s'; clear H. apply oinv2_rcancel.
+    destruct (clear_at_fields s n) as (E1 & E2 & E3 & E4 & E5 & E6 & E7).
+    apply (oinv2_frame _ _ I); auto; intros x; rewrite ?E6, ?E7; auto.
+  - inversion H; subst s'; clear H. apply (oinv2_frame _ _ I); cbn; auto. apply live_mark_parent.
+  - inversion H; subst s'; clear H. apply (oinv2_frame _ _ I); cbn; auto.
+  - destruct (d <? 0); try discriminate. inversion H; subst s'; clear H.
+    apply (oinv2_frame _ _ I); cbn; auto.
+Qed.
+
+Lemma oinv2_step s e s' : oinv2 s -> ostep s e = Some s' -> oinv2 s'.
+Proof.
+  intros I H. destruct e.
+  - refine (step_w s _ s' t I _ H); auto.
+  - refine (step_w s _ s' t I _ H); auto.
+  - refine (step_w s _ s' t I _ H); auto.
+  - refine (step_w s _ s' t I _ H); auto.
+  - refine (step_w s _ s' t I _ H); auto 6.
+  - refine (step_r s _ s' t I _ H); eauto.
+  - refine (step_r s _ s' t I _ H); auto.
+  - refine (step_r s _ s' t I _ H); auto.
+  - refine (step_r s _ s' t I _ H); auto 6.
+  - refine (step_r s _ s' t I _ H); auto 7.
+  - refine (step_r s _ s' t I _ H); auto 8.
+  - refine (step_run s _ s' I _ H); auto.
+  - refine (step_run s _ s' I _ H); auto.
+  - refine (step_run s _ s' I _ H); auto.
+  - refine (step_run s _ s' I _ H); auto 6.
+  - refine (step_run s _ s' I _ H); auto 7.
+  - refine (step_run s _ s' I _ H); auto 8.
+  - refine (step_run s _ s' I _ H); auto 9.
+  - refine (step_run s _ s' I _ H); auto 10.
+  - refine (step_env s _ s' I _ H); eauto.
+  - refine (step_env s _ s' I _ H); eauto.
+  - refine (step_env s _ s' I _ H); auto.
+  - refine (step_env s _ s' I _ H); eauto 6.
+Qed.
+
+Lemma oinv2_run g es : forall s, orun (oinit g) es = Some s -> oinv2 s.
+Proof.
+  assert (G : forall s s', oinv2 s -> orun s es = Some s' -> oinv2 s').
+  { induction es as [|e es IH]; cbn; intros s s' Hi Hr.
+    - inversion Hr; subst; exact Hi.
+    - unfold orun in Hr; cbn in Hr. destruct (ostep s e) as [s1|] eqn:E; [|discriminate].
+      eapply IH; [eapply oinv2_step; eauto | exact Hr]. }
+  intros s Hr. eapply G; eauto. apply oinv2_init.
+Qed.
+
+(* WRITER AFTER READERS / NO READER DURING WRITER: in every reachable state in which a writer
+   holds the token of o.lock (from the moment Run replies to it until its unlock), every reader
+   record that exists is done (released or cancelled) - so the writer was granted only after all
+   earlier readers, and no reader has been admitted since. *)
+Lemma outer_writer_excludes_readers : forall g es s t n r, orun (oinit g) es = Some s ->
+  opcs s t = OWHoldSlot -> nth_error (recs s) n = Some r -> r_done r = true.
+Proof.
+  intros g es s t n r Hr Ht Hn. pose proof (oinv2_run g es s Hr) as I.
+  destruct (o_hold s I t Ht) as [Ho _]. eapply live_zero_done; eauto. eapply (o_w s I); eauto.
+Qed.
+
+Lemma outer_no_live_reader_with_slot_writer : forall g es s t t', orun (oinit g) es = Some s ->
+  opcs s t = OWHoldSlot -> ~ rholds s t'.
+Proof.
+  intros g es s t t' Hr Ht (n & r & Hp & Hn & Hd).
+  pose proof (outer_writer_excludes_readers g es s t n r Hr Ht Hn) as Hdone.
+  unfold rctx_done in Hd. rewrite Hdone in Hd. discriminate.
+Qed.
+
+(* the token is held by at most one writer *)
+Lemma outer_slot_excl : forall g es s t1 t2, orun (oinit g) es = Some s ->
+  opcs s t1 = OWHoldSlot -> opcs s t2 = OWHoldSlot -> t1 = t2.
+Proof.
+  intros g es s t1 t2 Hr H1 H2. pose proof (oinv2_run g es s Hr) as I.
+  destruct (o_hold s I t1 H1) as [A _]. destruct (o_hold s I t2 H2) as [B _]. congruence.
+Qed.
+
+(* the WaitGroup counts exactly the reader records that are not done; a writer is granted only
+   when it is zero *)
+Lemma outer_wg_counts : forall g es s, orun (oinit g) es = Some s -> wg s = live (recs s).
+Proof. intros g es s Hr. apply (o_wg s (oinv2_run g es s Hr)). Qed.
+
+(* an acquisition that reports an error changes nothing but the caller's own pc and result *)
+Lemma outer_error_holds_nothing_step : forall s e s' t,
+  e = ORCtx t \/ e = ORClosed t \/ (e = ORGot t /\ resps s t = Some PErr) ->
+  ostep s e = Some s' ->
+  recs s' = recs s /\ wg s' = wg s /\ oslot s' = oslot s /\ owner s' = owner s /\ rcs s' = rcs s /\
+  opcs s' t = OIdle /\ (ores s' t = RCtxErr \/ ores s' t = RClosed) /\
+  (forall x, x <> t -> opcs s' x = opcs s x).
+Proof.
+  intros s e s' t [ -> | [ -> | [ -> Hr ] ] ] H; cbn in H.
+  - destruct (opcs s t); try discriminate. destruct (cdn s c); try discriminate.
+    inversion H; subst; cbn. rewrite !upd_same. repeat split; auto. intros; now rewrite upd_other.
+  - destruct (opcs s t); try discriminate; destruct (closed s); try discriminate;
+      inversion H; subst; cbn; rewrite !upd_same; repeat split; auto; intros; now rewrite upd_other.
+  - destruct (opcs s t); try discriminate. rewrite Hr in H.
+    inversion H; subst; cbn. rewrite !upd_same. repeat split; auto. intros; now rewrite upd_other.
+Qed.
+
+(* non-vacuity: two readers, a writer arrives, one reader releases, the other is cancelled by the
+   grace timer (not before [grace] has elapsed), the writer is granted *)
+Example outer_example :
+  match orun (oinit 50) [ORCall 1 7; ORSendCh 1; RunRecv; RunTakeSlot; RunRegR; ORGot 1;
+                         ORCall 2 8; ORSendCh 2; RunRecv; RunTakeSlot; RunRegR; ORGot 2;
+                         OWCall 3; OWSendCh 3; RunRecv; RunTakeSlot; RunRegW;
+                         ORRelease 1] with
+  | Some s => ostep s RunGrantW = None /\ ostep s (OGrace 1) = None /\
+      match orun s [OAdvance 50; OGrace 1; RunGrantW; OWGot 3] with
+      | Some s2 => opcs s2 3 = OWHoldSlot /\ done_of s2 0 = true /\ done_of s2 1 = true
+      | None => False
+      end
+  | None => False
+  end.
+Proof. vm_compute. repeat split. Qed.
+
+(* GRACE: while the lock is running, the rcancelGrace goroutine of a reader that has not
+   released can run only when the grace period has elapsed since it was spawned (and it is
+   spawned only by a writer's handleHold or by Run's deferred function, see [spawn_all]). *)
+Lemma outer_grace : forall s s' n, ostep s (OGrace n) = Some s' ->
+  done_of s n = false -> closed s = false ->
+  exists r a, nth_error (recs s) n = Some r /\ r_at r = Some a /\ a + grace s <= now s.
+Proof.
+  intros s s' n H Hd Hc. cbn in H. unfold done_of in Hd.
+  destruct (nth_error (recs s) n) as [r|] eqn:En; try discriminate.
+  destruct (r_at r) as [a|] eqn:Ea; try discriminate.
+  rewrite Hc, Hd in H. cbn in H. destruct (a + grace s <=? now s) eqn:El; try discriminate.
+  exists r, a. repeat split; auto. lia.
+Qed.
